@@ -361,6 +361,19 @@ class PartialJoin(UnaryOperation):
                     done=False,
                     messages=("join-deduplication commutation is not supported",),
                 )
+            case Projection() if (current.target.columns - current.columns) & self.fixed.columns:
+                # The projection hides columns that the fixed operand also
+                # has; joining upstream of it would confuse the two.
+                return UnaryCommutator(
+                    first=None,
+                    second=current.operation,
+                    done=False,
+                    messages=(
+                        f"{current.operation} hides columns "
+                        f"{set((current.target.columns - current.columns) & self.fixed.columns)} "
+                        "that are also present in the other join operand",
+                    ),
+                )
             case Projection():
                 # In order for projection(join(target)) to be equivalent to
                 # join(projection(target)), the new outer projection has to
